@@ -41,6 +41,19 @@ pub enum PEv {
 
 fn add_tok(m: &AddMode) -> &'static str {
     match m {
+        AddMode::ApiErr(1) => "reject:1",
+        AddMode::ApiErr(2) => "reject:2",
+        AddMode::ApiErr(3) => "reject:3",
+        AddMode::ApiErr(4) => "reject:4",
+        AddMode::ApiErr(5) => "reject:5",
+        AddMode::ApiErr(6) => "reject:6",
+        AddMode::ApiErr(32) => "reject:32",
+        AddMode::ApiErr(33) => "reject:33",
+        AddMode::ApiErr(34) => "reject:34",
+        AddMode::ApiErr(36) => "reject:36",
+        AddMode::ApiErr(65) => "reject:65",
+        AddMode::ApiErr(255) => "reject:255",
+        AddMode::ApiErr(_) => "reject:other",
         AddMode::Accept => "accept",
         AddMode::SubErr => "suberr",
         AddMode::Reject => "reject",
@@ -229,6 +242,12 @@ fn monitors(w: &mut PWorld, g: &mut Ghost, ev: &PEv, reply: &str, view: &View, t
             out.push(Rec::Count("note:temporary-unreachable-with-nothing-pending".into()));
         } else if tv.status == "tu" && !timed && w.towers[*t as usize].st.lock().unwrap().held.is_empty() {
             out.push(Rec::Fail("C13", "stuck_temporary_unreachable".into(), format!("tower {t} stays `temporary unreachable` for longer than the whole retry budget after `{}`: a retrier is stuck (or spinning)", ev.line())));
+            // C14: ... and the tower does answer (it is not down, it holds nothing): it is one of its replies that keeps
+            // the retrier from ever finishing
+            let (down, mode) = { let s = w.towers[*t as usize].st.lock().unwrap(); (s.down, format!("{:?}", s.add)) };
+            if !down {
+                out.push(Rec::Fail("C14", "retrier_wedged_by_reply".into(), format!("tower {t} answers every request (mode {mode}) but its retrier never finishes: still `temporary unreachable` after the whole retry budget following `{}`", ev.line())));
+            }
         }
     }
     // ---- C13: a manual retry is accepted exactly in the documented states
@@ -646,6 +665,11 @@ pub fn corpus() -> Vec<Scenario> {
         sc("rejection-after-a-long-wait", vec![Register(0), HoldAfter(0, 0), Notify(1), Release(0, Reject), Notify(2), Restart]),
         sc("garbage-after-a-long-wait", vec![Register(0), HoldAfter(0, 0), Notify(1), Release(0, NonJson), Add(0, Accept), Retry(0)]),
         sc("wrong-signer-after-a-long-wait", vec![Register(0), Register(1), HoldAfter(0, 0), Notify(1), Release(0, BadSig), Notify(2)]),
+        // every documented error code, on the notification path and on the retry path: all but the subscription error
+        // mean "this appointment is refused" (recorded as invalid); none may wedge the retrier
+        sc("error-codes-on-notification", vec![Register(0), Register(1), Add(0, ApiErr(32)), Notify(1), Add(0, ApiErr(36)), Notify(2), Add(0, ApiErr(65)), Notify(3), Add(0, ApiErr(255)), Notify(4), Add(0, Accept), Notify(5)]),
+        sc("service-unavailable-on-retry", vec![Register(0), Down(0, true), Notify(1), Notify(2), Add(0, ApiErr(32)), Down(0, false), Retry(0), Add(0, Accept), Notify(3), Retry(0)]),
+        sc("other-error-codes-on-retry", vec![Register(0), Down(0, true), Notify(1), Add(0, ApiErr(255)), Down(0, false), Retry(0), Down(0, true), Notify(2), Add(0, ApiErr(33)), Down(0, false), Retry(0), Down(0, true), Notify(3), Add(0, ApiErr(1)), Down(0, false), Retry(0), Restart]),
         // a tower that insists on a renewed subscription (as a real one does once the subscription has run out)
         sc("subscription-runs-out-while-down", vec![Register(0), Down(0, true), Notify(1), Add(0, SubErrUntilReg), Down(0, false), Retry(0), Notify(2)]),
         sc("subscription-runs-out-found-by-the-handler", vec![Register(0), Register(1), Add(0, SubErrUntilReg), Notify(1), Notify(2), Restart]),
@@ -674,7 +698,7 @@ fn random_scenario(rng: &mut Rng, i: usize) -> Scenario {
         ev.push(Register(t));
     }
     let n = 5 + rng.below(6);
-    let modes = [AddMode::Accept, AddMode::Accept, AddMode::SubErr, AddMode::SubErrUntilReg, AddMode::Reject, AddMode::NonJson, AddMode::WrongShape, AddMode::Empty, AddMode::BadSig, AddMode::MalformedSig];
+    let modes = [AddMode::Accept, AddMode::Accept, AddMode::SubErr, AddMode::SubErrUntilReg, AddMode::Reject, AddMode::ApiErr(32), AddMode::ApiErr(36), AddMode::ApiErr(65), AddMode::ApiErr(255), AddMode::ApiErr(1), AddMode::ApiErr(33), AddMode::NonJson, AddMode::WrongShape, AddMode::Empty, AddMode::BadSig, AddMode::MalformedSig];
     let regs = [RegMode::Accept, RegMode::Accept, RegMode::Same, RegMode::SameExpiry, RegMode::BadSig, RegMode::NonJson, RegMode::ApiError];
     for _ in 0..n {
         let t = rng.below(towers as u64) as u32;
